@@ -290,6 +290,10 @@ package resource
 //@   ensures [fail-result] err != nil ==> isnil(res)
 //@   // C01/C04: success stores the new value, returns it and publishes exactly one event carrying it
 //@   ensures [stored] err == nil ==> recv.value == res && !isnil(res)
+//@   // what is committed is what the REQUEST's change function computed (expected value/check, interceptors, the merge under
+//@   // update mask, writable fields and reset mask): that function is handed to the atomic update as it is, unwrapped
+//@   track GetAndUpdate
+//@   ensures [request-change-fn] calls(GetAndUpdate) > old(calls(GetAndUpdate)) ==> isfunc(lastarg(GetAndUpdate, 2), changeFn$1)
 //@   ensures [type] err == nil ==> sametype(res, value) && ref(res) != nil
 //@   ensures [one-event] err == nil ==> calls(Send) == old(calls(Send)) + 1
 //@   ensures [event-value] err == nil ==> istype(lastarg(Send, 2), *ValueChange) && cast(lastarg(Send, 2), *ValueChange).Value == res
@@ -439,6 +443,11 @@ package resource
 //@   ensures [fail-result] err != nil ==> isnil(res)
 //@   // success: the entry under the (intercepted or generated) key now holds the returned message; every other entry is as before
 //@   ensures [stored] err == nil ==> has(recv.byId, key) && recv.byId[key] != nil && recv.byId[key].body == res && !isnil(res)
+//@   // what is committed is what the REQUEST's change function computed (expected value/check, interceptors, the merge under
+//@   // update mask, writable fields and reset mask), also for a write of what is already stored: that function is handed to
+//@   // the atomic update as it is, unwrapped
+//@   track GetAndUpdate
+//@   ensures [request-change-fn] calls(GetAndUpdate) > old(calls(GetAndUpdate)) ==> isfunc(lastarg(GetAndUpdate, 2), changeFn$1)
 //@   ensures [others-kept] err == nil ==> (forall k string :: k != key ==> has(recv.byId, k) == old(has(recv.byId, k)) && recv.byId[k] == old(recv.byId[k]))
 //@   ensures [fresh-store] err == nil ==> fresh(res) && ref(res) != ref(msg)
 //@   ensures [type] err == nil ==> sametype(res, msg)
